@@ -1,5 +1,5 @@
 \* C13 quick: simulated histories with refused calls, plain
-\* run by hand:  cd spec && tlc -workers 8 RunGenSketch.tla -config cfg/C13__RunGenSketch__simulated_histories_with_refused_calls_plain.cfg -simulate num=200 -depth 9 -seed 2   (root module generated by the harness: see the .tla file next to this one; copy it to spec/ first)
+\* run by hand:  cd spec && tlc -workers 8 RunGenSketch.tla -config cfg/C13__RunGenSketch__simulated_histories_with_refused_calls_plain.cfg -simulate num=200 -depth 9 -seed 1   (root module generated by the harness: see the .tla file next to this one; copy it to spec/ first)
 INIT GenInit
 NEXT GenNext
 CONSTANTS
